@@ -37,6 +37,9 @@ var anchored = []string{
 	"pkg/wallet/session.go",
 	"pkg/didcomm/common/service/action.go",
 	"pkg/didcomm/common/service/message.go",
+	"component/storage/leveldb/leveldb.go",
+	"pkg/store/did/store.go",
+	"pkg/wallet/contents.go",
 }
 
 type held struct {
@@ -83,6 +86,7 @@ type pkgInfo struct {
 	funcs   map[string]bool              // package-level function names
 	methods map[string]bool              // Type.method
 	globals map[string]string            // package-level var -> type expr ("" unknown)
+	rets    map[string]string            // function / Type.method -> first result type (without *), when a struct of this package
 }
 
 func exprStr(e ast.Expr) string {
@@ -116,6 +120,7 @@ func isMutexType(t string) bool {
 
 type walker struct {
 	loop  int
+	local map[string]string // local variable -> struct type of this package (from `x := f(...)` with a known result type)
 	p     *pkgInfo
 	recv  string // receiver identifier
 	rtype string // receiver type
@@ -223,8 +228,18 @@ func (w *walker) call(c *ast.CallExpr, h []held) {
 			return
 		}
 
+		// a method call on a local variable whose type is known from `x := f(...)`
+		if id, ok := fun.X.(*ast.Ident); ok && id.Name != w.recv {
+			if t := w.local[id.Name]; t != "" && w.p.methods[t+"."+fun.Sel.Name] {
+				w.f.calls = append(w.f.calls, call{callee: w.p.name + "." + t + "." + fun.Sel.Name, held: copyHeld(h)})
+
+				return
+			}
+		}
+
 		// a method call on a local variable: resolved when exactly one type of the package has a method of that name
-		if id, ok := fun.X.(*ast.Ident); ok && id.Obj != nil && id.Name != w.recv {
+		// (unexported method names only: an exported name like Close or Write is usually a method of a foreign type)
+		if id, ok := fun.X.(*ast.Ident); ok && id.Obj != nil && id.Name != w.recv && !ast.IsExported(fun.Sel.Name) {
 			var owners []string
 
 			for m := range w.p.methods {
@@ -249,6 +264,27 @@ func (w *walker) call(c *ast.CallExpr, h []held) {
 			w.f.scalls = append(w.f.scalls, scall{field: fld, method: "()", held: copyHeld(h)})
 		}
 	}
+}
+
+// resultType: the struct type (of this package) a call returns, when the callee is a function / method of the package.
+func (w *walker) resultType(c *ast.CallExpr) string {
+	name := ""
+
+	switch f := c.Fun.(type) {
+	case *ast.Ident:
+		name = f.Name
+	case *ast.SelectorExpr:
+		if id, ok := f.X.(*ast.Ident); ok && id.Name == w.recv {
+			name = w.rtype + "." + f.Sel.Name
+		}
+	}
+
+	t := w.p.rets[name]
+	if _, ok := w.p.structs[t]; ok {
+		return t
+	}
+
+	return ""
 }
 
 func lockCall(s ast.Stmt) (*ast.CallExpr, bool) {
@@ -338,6 +374,16 @@ func (w *walker) block(stmts []ast.Stmt, h []held) []held {
 
 		switch x := s.(type) {
 		case *ast.AssignStmt:
+			if len(x.Rhs) == 1 && len(x.Lhs) >= 1 {
+				if c, ok := x.Rhs[0].(*ast.CallExpr); ok {
+					if id, ok := x.Lhs[0].(*ast.Ident); ok {
+						if t := w.resultType(c); t != "" {
+							w.local[id.Name] = t
+						}
+					}
+				}
+			}
+
 			lhs := map[ast.Expr]bool{}
 
 			for _, l := range x.Lhs {
@@ -493,7 +539,7 @@ func main() {
 		}
 
 		p := &pkgInfo{name: files[0].Name.Name, structs: map[string]map[string]string{}, byField: map[string][]string{},
-			funcs: map[string]bool{}, methods: map[string]bool{}, globals: map[string]string{}}
+			funcs: map[string]bool{}, methods: map[string]bool{}, globals: map[string]string{}, rets: map[string]string{}}
 
 		for _, af := range files {
 			for _, decl := range af.Decls {
@@ -541,10 +587,16 @@ func main() {
 						}
 					}
 				case *ast.FuncDecl:
+					fname := x.Name.Name
 					if x.Recv == nil {
 						p.funcs[x.Name.Name] = true
 					} else {
-						p.methods[strings.TrimPrefix(exprStr(x.Recv.List[0].Type), "*")+"."+x.Name.Name] = true
+						fname = strings.TrimPrefix(exprStr(x.Recv.List[0].Type), "*") + "." + x.Name.Name
+						p.methods[fname] = true
+					}
+
+					if x.Type.Results != nil && len(x.Type.Results.List) > 0 {
+						p.rets[fname] = strings.TrimPrefix(exprStr(x.Type.Results.List[0].Type), "*")
 					}
 				}
 			}
@@ -563,7 +615,7 @@ func main() {
 					continue
 				}
 
-				w := &walker{p: p}
+				w := &walker{p: p, local: map[string]string{}}
 				name := p.name + "." + fd.Name.Name
 
 				if fd.Recv != nil {
@@ -577,6 +629,11 @@ func main() {
 
 				w.f = &fn{name: name, exported: ast.IsExported(fd.Name.Name)}
 				w.block(fd.Body.List, nil)
+
+				// constructors (plain functions New…/new…) initialise an object nobody else can reach yet
+				if fd.Recv == nil && (strings.HasPrefix(fd.Name.Name, "New") || strings.HasPrefix(fd.Name.Name, "new")) {
+					w.f.accs, w.f.calls = nil, nil
+				}
 				fns = append(fns, w.f)
 
 				// constructors (plain functions) initialise; only methods and functions with locks make a field "mutable"
